@@ -8,7 +8,7 @@ arguments, as a Predicate dataclass subclass, a @symbolic_function function and 
 from __future__ import annotations
 
 import itertools
-from dataclasses import dataclass
+from dataclasses import dataclass, field
 
 from mc.core import CaseResult, Failure, HarnessError
 
@@ -103,6 +103,32 @@ class H{n}{d}:
         return truth({args})
 '''
             exec(src, ns)
+    # keyword-only parameters: for a dataclass Predicate the keyword-only field is declared BETWEEN the positional ones,
+    # so declaration order and positional order differ (positional: p1, p3; keyword-only: p2)
+    ns["field"] = field
+    exec("""
+@dataclass(eq=False)
+class PK(Predicate):
+    p1: object
+    p2: object = field(default=10, kw_only=True)
+    p3: object = 20
+    def __call__(self):
+        LOG.append(("PK", dict(p1=self.p1, p2=self.p2, p3=self.p3)))
+        return truth(p1=self.p1, p2=self.p2, p3=self.p3)
+
+@symbolic_function
+def fK(p1, p3=20, *, p2=10):
+    LOG.append(("fK", dict(p1=p1, p2=p2, p3=p3)))
+    return truth(p1=p1, p2=p2, p3=p3)
+
+class HK:
+    def __init__(self, tag):
+        self.tag = tag
+    @symbolic_function
+    def m(self, p1, p3=20, *, p2=10):
+        LOG.append(("mK", dict(p1=p1, p2=p2, p3=p3), self.tag))
+        return truth(p1=p1, p2=p2, p3=p3)
+""", ns)
     NAMESPACE.update(ns)
     return NAMESPACE
 
@@ -129,6 +155,17 @@ def cases(tier, seed):
     for form in ("pred", "func", "meth"):
         for s in shapes():
             out.append((form,) + s)
+    # keyword-only parameters (positional order p1, p3; p2 keyword-only): every valid call shape
+    for form in ("pred", "func", "meth"):
+        for k in (0, 1, 2):
+            rest = [nm for nm in ("p1", "p3") [k:]] + ["p2"]
+            for r in range(0, len(rest) + 1):
+                for kws in itertools.combinations(rest, r):
+                    if k == 0 and "p1" not in kws:
+                        continue
+                    for korder in (("fwd", "rev") if len(kws) >= 2 else ("fwd",)):
+                        for srcs in itertools.product(("x", "x.a", "y", "conc"), repeat=k + len(kws)):
+                            out.append((form, "K", ("p1", "p3")[:k] + kws, len(kws), k, korder, srcs))
     # results that are not bools: a body returning 0/1, None/"yes", []/[1] - used as a condition, under not_, and as an
     # operand of a comparison with its falsy and with its truthy value
     for form in ("func", "pred"):
@@ -351,7 +388,11 @@ def run_case(case):
     if "inner(x)" in srcs:
         sym["inner(x)"] = ns_inner(x)
     conc = lambda s, bx, by: bx if s == "x" else bx.a if s in ("x.a", "inner(x)") else by if s == "y" else 7
-    names = [f"p{i}" for i in range(1, given + 1)]
+    kwonly = n == "K"
+    if kwonly:
+        names, given, n, d = list(d), len(d), 3, "K"
+    else:
+        names = [f"p{i}" for i in range(1, given + 1)]
     pos = [sym[s] for s in srcs[:k]]
     kw_items = [(names[i], sym[srcs[i]]) for i in range(k, given)]
     if korder == "rev":
@@ -359,10 +400,17 @@ def run_case(case):
     kw = dict(kw_items)
     symbolic = any(s != "conc" for s in srcs)
     label = f"{form}{n}{d}({', '.join(srcs[:k])}{', ' if k and kw else ''}{', '.join(f'{a}={srcs[names.index(a)]}' for a, _ in kw_items)})"
-    holder = ns[f"H{n}{d}"]("h") if form == "meth" else None
-    target = ns[f"P{n}{d}"] if form == "pred" else ns[f"f{n}{d}"] if form == "func" else holder.m
+    if kwonly:
+        holder = ns["HK"]("h") if form == "meth" else None
+        target = ns["PK"] if form == "pred" else ns["fK"] if form == "func" else holder.m
+        label = "kwonly:" + label
+    else:
+        holder = ns[f"H{n}{d}"]("h") if form == "meth" else None
+        target = ns[f"P{n}{d}"] if form == "pred" else ns[f"f{n}{d}"] if form == "func" else holder.m
     del LOG[:]
     feats = {"form:" + form, "symbolic" if symbolic else "concrete", "positional:%d" % k}
+    if kwonly:
+        feats.add("kwonly:" + form)
 
     def expected_params(bx, by):
         p = {names[i]: conc(srcs[i], bx, by) for i in range(given)}
@@ -379,7 +427,7 @@ def run_case(case):
     if not symbolic:
         exp = expected_params(None, None)
         if form == "pred":
-            if isinstance(r, SymbolicExpression) or type(r).__name__ != f"P{n}{d}":
+            if isinstance(r, SymbolicExpression) or type(r).__name__ != ("PK" if kwonly else f"P{n}{d}"):
                 res.failures.append(Failure("concrete-not-plain", f"{label}: returned {type(r).__name__}"))
             else:
                 got = r()
@@ -449,7 +497,8 @@ def cluster_key(case, f):
 
 def finish(run):
     if run.exhaustive and not run.failures:
-        for k in ("form:pred", "form:func", "form:meth", "concrete", "symbolic", "homonym:func", "homonym:pred", "result_kind:none_or_str", "use:eq_falsy"):
+        for k in ("form:pred", "form:func", "form:meth", "concrete", "symbolic", "homonym:func", "homonym:pred", "result_kind:none_or_str", "use:eq_falsy",
+                  "kwonly:pred", "kwonly:func", "kwonly:meth"):
             if not run.features.get(k):
                 raise HarnessError("vacuous: " + k)
 
